@@ -303,7 +303,7 @@ func bpChecksumOf(bp *lt.Bulletproof, m int) Key {
 	return HashToScalar(parts...)
 }
 
-func bpProve(amounts lt.KeyV) (*lt.Bulletproof, lt.KeyV, lt.KeyV, bool) {
+func bpProve(amounts, sk lt.KeyV) (*lt.Bulletproof, lt.KeyV, lt.KeyV, bool) {
 	m := len(amounts)
 	if m == 0 || m > 16 {
 		return nil, nil, nil, false
@@ -317,7 +317,13 @@ func bpProve(amounts lt.KeyV) (*lt.Bulletproof, lt.KeyV, lt.KeyV, bool) {
 				return nil, nil, nil, false // not a 64-bit amount: cannot be proven
 			}
 		}
-		masks[i] = RandomScalar()
+		// as in Monero's genCommitmentMask: the mask is a deterministic function of the per-output
+		// shared secret, so the receiver can recompute the commitment (the repository's wallet does)
+		if i < len(sk) {
+			masks[i] = HashToScalar([]byte("commitment_mask"), sk[i][:])
+		} else {
+			masks[i] = RandomScalar()
+		}
 		copy(amountSlot(bp, i), amounts[i][:8])
 		*maskSlot(bp, i) = masks[i]
 		c := Commit(masks[i], binary.LittleEndian.Uint64(amounts[i][:8]))
